@@ -1260,15 +1260,54 @@ func structOf(t types.Type) *types.Struct {
 }
 
 // RoleOfAddr describes the location addr points to.
+// FieldAlias, when set, maps "Owner.Field" of a field that was moved into a
+// struct introduced later onto the owner and name the rules know it by.
+var FieldAlias map[string][2]string
+
+// ParamBind, when set, gives the argument a parameter of a helper expanded in
+// place stands for on the path that is being judged: out.seqSem with out bound
+// to &c.atLeastOnce reads as c.atLeastOnce.seqSem.
+var ParamBind map[ssa.Value]ssa.Value
+
+func boundParam(v ssa.Value) ssa.Value {
+	for d := 0; d < 4 && ParamBind != nil; d++ {
+		pr, ok := v.(*ssa.Parameter)
+		if !ok {
+			break
+		}
+		b, ok := ParamBind[pr]
+		if !ok || b == v {
+			break
+		}
+		v = b
+	}
+	return v
+}
+
 func RoleOfAddr(addr ssa.Value) Role {
 	switch x := addr.(type) {
 	case *ssa.FieldAddr:
 		s := structOf(x.X.Type())
 		name := s.Field(x.Field).Name()
 		owner := namedOf(x.X.Type())
-		base := RoleOfAddr(x.X)
+		base := RoleOfAddr(boundParam(x.X))
+		if al, ok := FieldAlias[owner+"."+name]; ok {
+			// c.rd.conn reads as c.readConn: the holder drops out of the path
+			owner, name = al[0], al[1]
+			if hb, isFA := x.X.(*ssa.FieldAddr); isFA {
+				base = RoleOfAddr(hb.X)
+				if base.Path == "" {
+					if u, isLoad := hb.X.(*ssa.UnOp); isLoad && u.Op == token.MUL {
+						if br := RoleOfAddr(u.X); br.Path != "" {
+							return Role{Owner: owner, Field: name, Path: br.Path + "." + name, Base: br.Base}
+						}
+					}
+					return Role{Owner: owner, Field: name, Path: owner + "." + name, Base: hb.X}
+				}
+			}
+		}
 		if base.Path == "" {
-			b := x.X
+			b := boundParam(x.X)
 			// value loaded from somewhere else (pointer field)
 			if u, ok := b.(*ssa.UnOp); ok && u.Op == token.MUL {
 				if br := RoleOfAddr(u.X); br.Path != "" {
@@ -1303,6 +1342,20 @@ func RoleOfValue(v ssa.Value) Role {
 		name := s.Field(x.Field).Name()
 		owner := namedOf(x.X.Type())
 		base := RoleOfValue(x.X)
+		if al, ok := FieldAlias[owner+"."+name]; ok {
+			owner, name = al[0], al[1]
+			if hb, isF := x.X.(*ssa.Field); isF {
+				base = RoleOfValue(hb.X)
+				if base.Path == "" {
+					return Role{Owner: owner, Field: name, Path: owner + "." + name, Base: hb.X}
+				}
+			} else if u, isLoad := x.X.(*ssa.UnOp); isLoad && u.Op == token.MUL {
+				// the holder struct loaded as a whole
+				if hb, isFA := u.X.(*ssa.FieldAddr); isFA {
+					base = RoleOfAddr(hb.X)
+				}
+			}
+		}
 		if base.Path == "" {
 			root := owner
 			if p, ok := x.X.(*ssa.Parameter); ok {
